@@ -9,7 +9,7 @@ pub fn run(tier: Tier, seed: u64) -> ! {
     rep.rule = "complete enumeration of cells (17 write kinds: node/edge create+delete through GQL, Cypher and the session API, SET/REMOVE property on node and edge, indexed property, add/remove label, MERGE, SPARQL INSERT/DELETE DATA) x (26 read paths: label scan, unlabelled scan, projections, filter, index path, expand typed/untyped/incoming, 2-hop, variable length, count, edge properties, Cypher, Gremlin, GraphQL, SPARQL pattern, session point lookups / neighbours / degree / batch, database-level counts and iterators) x (8 scenarios, 14 observation points: uncommitted foreign write seen by a reader without transaction / in a transaction begun before / after the write; repeatable read across a foreign commit; committed-before-begin; own write; auto-commit; reader after an unrelated commit) x (2 epoch regimes). Oracle: reference model state without (S0) / with (S1) the write, whichever the reader is entitled to. non-trivial cell = read path whose answer differs between S0 and S1 for that write".into();
     txm::run_matrix(
         &mut rep,
-        &[Sc::DirtyNonTx, Sc::DirtyTxBefore, Sc::DirtyTxAfter, Sc::Repeatable, Sc::CommittedBefore, Sc::OwnWrite, Sc::AutoCommit, Sc::UnrelatedCommit],
+        &[Sc::DirtyNonTx, Sc::DirtyTxBefore, Sc::DirtyTxAfter, Sc::Repeatable, Sc::CommittedBefore, Sc::OwnWrite, Sc::AutoCommit, Sc::UnrelatedCommit, Sc::SnapshotAcrossCommit],
         &|_| {},
     );
     rep.extra.insert("exhaustive".into(), serde_json::json!(true));
